@@ -342,7 +342,7 @@ impl EGen {
                     if offgrid && tick > 1 && self.chance(0.4) { p += self.rng.gen_range(1..tick); }
                     Some(p)
                 };
-                let lo = if self.profile == "unusual" { 0 } else { 1 };
+                let lo = if self.profile == "unusual" || self.profile == "py" { 0 } else { 1 };
                 let v = if self.chance(0.4) { None } else { Some(self.rng.gen_range(lo..12)) };
                 ops.push(EOp::QModify(a, id, p, v));
             } else if self.profile == "toggle" || self.chance(0.3) {
@@ -641,7 +641,10 @@ impl MGen {
             g.t += g.rng.gen_range(1..4);
             // now and then only the addressed book's clock is advanced (through its handle); the next
             // market-level clock change brings all books back together
-            if (g.profile == "reload" || g.profile == "plain") && g.chance(0.08) { ops.push(MOp::On(a, Op::Time(g.t))); } else { ops.push(MOp::Time(g.t)); }
+            // ... or only ANOTHER book's clock (book 0's in half of the cases), so that the addressed book lags behind
+            if g.chance(0.08) { ops.push(MOp::On(a, Op::Time(g.t))); }
+            else if A > 1 && g.chance(0.08) { let b = if g.chance(0.5) { 0 } else { g.rng.gen_range(0..A) }; if b != a { ops.push(MOp::On(b, Op::Time(g.t))); } else { ops.push(MOp::Time(g.t)); } }
+            else { ops.push(MOp::Time(g.t)); }
         };
         let mut price = |g: &mut MGen| {
             let mut p = (g.base + g.rng.gen_range(0..g.n_prices)) * tick;
